@@ -633,6 +633,14 @@ TTL_DOCS = [
      '   .\n',
      [(_I("http://example.org/a"), "http://example.org/p", _I("http://example.org/b")),
       (_I("http://example.org/a"), "http://example.org/q", _L("v", XS + "string"))]),
+    ("trailing comments that contain quote characters (not literals: nothing to protect, nothing to match)",
+     '@prefix ex: <http://example.org/> .\n'
+     'ex:pipe1 a ex:Pipe ;   # the 6" model\n'
+     '   ex:len "6" . # said "six"\n'
+     'ex:pipe2 a ex:Pipe . # it\'s 7" long, "roughly"\n',
+     [(_I("http://example.org/pipe1"), TYPE, _I("http://example.org/Pipe")),
+      (_I("http://example.org/pipe1"), "http://example.org/len", _L("6", XS + "string")),
+      (_I("http://example.org/pipe2"), TYPE, _I("http://example.org/Pipe"))]),
     ("a predicate list that ends with '; .' on its own line",
      '@prefix ex: <http://example.org/> .\n'
      'ex:a ex:p ex:b ;\n'
